@@ -450,6 +450,11 @@ impl DebrayAllocator {
         p
     }
 
+    // the next shallow term is argument number `arg` of the goal being compiled
+    pub(crate) fn set_arg(&mut self, arg: usize) {
+        self.arg_c = arg;
+    }
+
     pub(crate) fn add_reg_to_free_list(&mut self, r: RegType) {
         if let RegType::Temp(r) = r {
             self.in_use.remove(r);
